@@ -523,3 +523,276 @@ Section Desugar.
         rewrite odesugar_stmt, Hn, Hdx, Hdy. reflexivity.
   Qed.
 End Desugar.
+
+(* ================================================================================== *)
+(* 3. K1: why wf_term excludes images whose own components contain a placeholder       *)
+(* `(/, _, _, +1)` is printed for ImageExtension(1, [_, +1]); its documented meaning (and what the
+   parser returns) is ImageExtension(0, [_, +1]).  The witness satisfies every other clause of wf_term,
+   for every is_alnum and in each shipped format. *)
+Definition k1_term : term := TImg ImageExtension 1 [placeholder; TNum Interval 1].
+
+Lemma K1_witness : forall (is_alnum : N -> bool) (E : efmt), In E shipped_formats ->
+  wf_term_pre is_alnum E k1_term = true /\ wf_term is_alnum E k1_term = false /\
+  exists s, sst_of E k1_term = Some s /\ fmt_term E k1_term = render E s /\
+            odesugar s = Some (TImg ImageExtension 0 [placeholder; TNum Interval 1]) /\ odesugar s <> Some k1_term.
+Proof.
+  intros is_alnum E HE. cbn [shipped_formats In] in HE.
+  destruct HE as [<-|[<-|[<-|[]]]]; (split; [vm_compute; reflexivity|]); (split; [vm_compute; reflexivity|]);
+    (eexists; split; [vm_compute; reflexivity|]); (split; [vm_compute; reflexivity|]);
+    (split; [vm_compute; reflexivity|]); vm_compute; discriminate.
+Qed.
+
+(* ================================================================================== *)
+(* 4. nesting depth vs. length of the text                                             *)
+Lemma render_set_eq E ext a g items b :
+  render E (SSet ext a g items b) =
+  set_lb E ext ++ sp E a ++ render_items E (render E) g false 0 items ++ sp E b ++ set_rb E ext.
+Proof. reflexivity. Qed.
+Lemma render_comp_eq E arm a g items b :
+  render E (SComp arm a g items b) =
+  compound_brackets_0 E ++ sp E a ++ comp_kw E arm ++ render_items E (render E) g true 0 items ++ sp E b ++ compound_brackets_1 E.
+Proof. reflexivity. Qed.
+Lemma render_stmt_eq E arm a b c d x y :
+  render E (SStmt arm a b c d x y) =
+  statement_brackets_0 E ++ sp E a ++ render E x ++ sp E b ++ stmt_kw E arm ++ sp E c ++ render E y ++ sp E d ++ statement_brackets_1 E.
+Proof. reflexivity. Qed.
+
+Section Depth.
+  Variable E : efmt.
+  Hypothesis Htot : total_ok E = true.
+
+  Lemma items_depth (c : nat) gaps : forall items lead i,
+    Forall (fun x => (sdepth x <= c + length (render E x))%nat) items ->
+    (fold_right (fun x acc => Nat.max (sdepth x) acc) O items <= c + length (render_items E (render E) gaps lead i items))%nat.
+  Proof.
+    induction items as [|x items IH]; intros lead i HF; cbn [fold_right render_items]; [lia|].
+    inversion HF as [|? ? Hx HF']; subst. specialize (IH true (S i) HF'). rewrite !app_length. lia.
+  Qed.
+
+  Lemma set_lb_pos ext : (0 < length (set_lb E ext))%nat.
+  Proof. destruct ext; cbn [set_lb]; [apply (ok_xb0 unit tt (fun _ => true)) | apply (ok_ib0 unit tt (fun _ => true))]; assumption. Qed.
+
+  Lemma sdepth_gen (c : nat) : forall s, (c = 1%nat \/ snonempty E s = true) ->
+    (sdepth s <= c + length (render E s))%nat.
+  Proof.
+    induction s as [arm name|ext a g items b HF|arm a g items b HF|arm a b c0 d x y IHx IHy] using sterm_ind'; intros Hc.
+    - cbn [sdepth render]. destruct Hc as [->|Hc]; [lia|]. cbn [snonempty] in Hc.
+      destruct (atom_prefix E arm ++ name); [discriminate | cbn [length]; lia].
+    - assert (HF' : Forall (fun x => (sdepth x <= c + length (render E x))%nat) items).
+      { rewrite Forall_forall in *. intros x Hx. apply HF; [assumption|]. destruct Hc as [->|Hc]; [now left | right].
+        cbn [snonempty] in Hc. rewrite forallb_forall in Hc. now apply Hc. }
+      cbn [sdepth]. rewrite render_set_eq, !app_length.
+      pose proof (items_depth c g items false 0%nat HF'). pose proof (set_lb_pos ext). lia.
+    - assert (HF' : Forall (fun x => (sdepth x <= c + length (render E x))%nat) items).
+      { rewrite Forall_forall in *. intros x Hx. apply HF; [assumption|]. destruct Hc as [->|Hc]; [now left | right].
+        cbn [snonempty] in Hc. rewrite forallb_forall in Hc. now apply Hc. }
+      cbn [sdepth]. rewrite render_comp_eq, !app_length.
+      pose proof (items_depth c g items true 0%nat HF'). pose proof (ok_cb0 unit tt (fun _ => true) E Htot). lia.
+    - assert (Hx : c = 1%nat \/ snonempty E x = true).
+      { destruct Hc as [->|Hc]; [now left | right]. cbn [snonempty] in Hc. now apply andb_true_iff in Hc as [? _]. }
+      assert (Hy : c = 1%nat \/ snonempty E y = true).
+      { destruct Hc as [->|Hc]; [now left | right]. cbn [snonempty] in Hc. now apply andb_true_iff in Hc as [_ ?]. }
+      specialize (IHx Hx). specialize (IHy Hy). cbn [sdepth]. rewrite render_stmt_eq, !app_length.
+      pose proof (ok_sb0 unit tt (fun _ => true) E Htot). lia.
+  Qed.
+
+  (* for EVERY surface tree: enough for the fuel S (S (length input)) of parse_term *)
+  Theorem sdepth_le_render_S s : (sdepth s <= S (length (render E s)))%nat.
+  Proof. apply (sdepth_gen 1). now left. Qed.
+
+  (* when no atom has an empty text *)
+  Theorem sdepth_le_render s : snonempty E s = true -> (sdepth s <= length (render E s))%nat.
+  Proof. intros H. apply (sdepth_gen 0). now right. Qed.
+
+  (* the canonical tree of a well-formed term has no empty atom *)
+  Lemma sst_atom_snonempty a init n s :
+    sst_atom E a init n = Some s -> (n <> [] \/ exists c, init = AIUnit c) -> snonempty E s = true.
+  Proof.
+    destruct a; cbn [sst_atom]; try discriminate. intros H Hn.
+    destruct (atom_arm_ix E prefix init) as [i|] eqn:Hi; [|discriminate]. injection H as <-.
+    apply atom_arm_ix_spec in Hi as (p & Hi & _). cbn [snonempty]. unfold atom_prefix. rewrite Hi.
+    destruct Hn as [Hn|[c ->]].
+    - destruct (p E); cbn [app nonempty]; [destruct n; [congruence | reflexivity] | reflexivity].
+    - pose proof (ok_atoms unit tt (fun _ => true) E Htot) as Hs. rewrite forallb_forall in Hs.
+      specialize (Hs _ (nth_error_In _ _ Hi)). cbn [snd fst] in Hs.
+      destruct (p E); [discriminate | reflexivity].
+  Qed.
+
+  Lemma sst_comp_snonempty kw init items s :
+    sst_comp E kw init items = Some s -> forallb (snonempty E) items = true -> snonempty E s = true.
+  Proof.
+    unfold sst_comp. destruct items as [|x items]; [discriminate|].
+    destruct (comp_arm_ix E kw init); [|discriminate]. intros H; injection H as <-. trivial.
+  Qed.
+
+  Lemma forallb_img_iter {A} (f : A -> bool) ph idx l : f ph = true -> forallb f l = true ->
+    forall now, forallb f (img_iter_gen ph now idx l) = true.
+  Proof.
+    intros Hph. induction l as [|x l IH]; intros Hl now; cbn [img_iter_gen].
+    - destruct (now =? idx); cbn [forallb]; [now rewrite Hph | reflexivity].
+    - cbn [forallb] in Hl. apply andb_true_iff in Hl as [Hx Hl].
+      destruct (now =? idx); cbn [forallb]; rewrite ?Hph, Hx, IH; auto.
+  Qed.
+
+  Lemma sst_of_snonempty is_alnum k1 : forall t s,
+    wf_term_gen is_alnum E k1 t = true -> sst_of E t = Some s -> snonempty E s = true.
+  Proof.
+    assert (Hlist : forall l, Forall (fun t => forall s, wf_term_gen is_alnum E k1 t = true -> sst_of E t = Some s -> snonempty E s = true) l ->
+              forallb (wf_term_gen is_alnum E k1) l = true -> forall items, omap (sst_of E) l = Some items ->
+              forallb (snonempty E) items = true).
+    { induction 1 as [|t l Ht _ IH]; intros Hw items Hi.
+      - cbn [omap] in Hi. injection Hi as <-. reflexivity.
+      - rewrite omap_cons in Hi. destruct (sst_of E t) as [s|] eqn:Hs; [|discriminate].
+        destruct (omap (sst_of E) l) as [ss|]; [|discriminate]. injection Hi as <-.
+        cbn [forallb] in *. apply andb_true_iff in Hw as [Hw1 Hw2]. rewrite (Ht s Hw1 eq_refl), (IH Hw2 ss eq_refl). reflexivity. }
+    induction t as [c n|c|c i|c l IH|c l IH|c i l IH|c a IH|c a b IHa IHb] using term_ind';
+      intros s Hw H; cbn [wf_term_gen sst_of] in *.
+    - eapply sst_atom_snonempty; [eassumption|]. left. unfold name_ok in Hw. repeat rewrite andb_true_iff in Hw.
+      destruct n; [|discriminate]. now destruct Hw as [[[[[Hw _] _] _] _] _].
+    - eapply sst_atom_snonempty; [eassumption|]. right. eauto.
+    - eapply sst_atom_snonempty; [eassumption|]. left. apply show_N_not_nil.
+    - apply andb_true_iff in Hw as [Hw _]. apply andb_true_iff in Hw as [_ Hw].
+      destruct (omap (sst_of E) l) as [items|] eqn:Hi; [|discriminate]. specialize (Hlist l IH Hw items Hi).
+      destruct (fmt_arm_set c); cbn [sst_set] in H; try discriminate.
+      + destruct (_ && _ && _); [injection H as <-; exact Hlist|]. destruct (_ && _ && _); [injection H as <-; exact Hlist | discriminate].
+      + eapply sst_comp_snonempty; eassumption.
+    - apply andb_true_iff in Hw as [_ Hw].
+      destruct (omap (sst_of E) l) as [items|] eqn:Hi; [|discriminate]. specialize (Hlist l IH Hw items Hi).
+      unfold sst_vec in H. destruct (fmt_arm_vec c); try discriminate. eapply sst_comp_snonempty; eassumption.
+    - apply andb_true_iff in Hw as [Hw _]. apply andb_true_iff in Hw as [_ Hw].
+      destruct (omap (sst_of E) l) as [items|] eqn:Hi; [|discriminate]. specialize (Hlist l IH Hw items Hi).
+      unfold sst_img in H. destruct (fmt_arm_img c); try discriminate.
+      destruct (sst_placeholder E) as [ph|] eqn:Hph; [|discriminate].
+      eapply sst_comp_snonempty; [eassumption|]. apply forallb_img_iter; [|assumption].
+      unfold sst_placeholder in Hph. eapply sst_atom_snonempty; [eassumption|]. right. eauto.
+    - destruct (sst_of E a) as [x|] eqn:Ha; [|discriminate]. unfold sst_box1 in H.
+      destruct (fmt_arm_box1 c); try discriminate. eapply sst_comp_snonempty; [eassumption|].
+      cbn [forallb]. now rewrite (IH x Hw eq_refl).
+    - apply andb_true_iff in Hw as [Hwa Hwb].
+      destruct (sst_of E a) as [x|] eqn:Ha; [|discriminate]. destruct (sst_of E b) as [y|] eqn:Hb; [|discriminate].
+      specialize (IHa x Hwa eq_refl). specialize (IHb y Hwb eq_refl). unfold sst_box2 in H.
+      destruct (fmt_arm_box2 c); try discriminate.
+      + eapply sst_comp_snonempty; [eassumption|]. cbn [forallb]. now rewrite IHa, IHb.
+      + destruct (stmt_arm_ix E kw c); [|discriminate]. injection H as <-. cbn [snonempty]. now rewrite IHa, IHb.
+  Qed.
+End Depth.
+
+(* ================================================================================== *)
+(* 5. format-then-parse of terms, given the parser-side theorem                         *)
+Section Roundtrip.
+  Variable F : Type.
+  Variable is_alnum : N -> bool.
+  Variable E : efmt.
+  Variable unamb : sterm -> str -> bool.
+  Hypothesis HTP : TermParses F is_alnum E unamb.
+  Hypothesis Htot : total_ok E = true.
+  Hypothesis Hsp : fmt_space_ok E = true.
+  Hypothesis Hcover : arms_cover E = true.
+
+  Lemma sst_spec t : wf_term is_alnum E t = true ->
+    sst_of E t = Some (sst E t) /\ odesugar (sst E t) = Some t /\ fmt_term E t = render E (sst E t).
+  Proof.
+    intros Hw. destruct (sst_of_desugar is_alnum E Hcover t Hw) as (s & Hs & Hd).
+    unfold sst. rewrite Hs. repeat split; [assumption|]. now apply fmt_term_render.
+  Qed.
+
+  Theorem C01_term_roundtrip : forall t,
+    wf_term is_alnum E t = true -> unamb (sst E t) [] = true ->
+    parse_term F is_alnum E (new_state F (fmt_term E t)) =
+    POk t (step F (length (fmt_term E t)) (new_state F (fmt_term E t))).
+  Proof.
+    intros t Hw Hu. destruct (sst_spec t Hw) as (_ & Hd & Hr). rewrite Hr.
+    unfold parse_term, term_fuel.
+    apply (HTP (sst E t) t [] (length (render E (sst E t)))); try assumption.
+    - split; cbn [new_state s_len s_head s_rest]; [reflexivity | lia].
+    - cbn [new_state s_rest]. now rewrite app_nil_r.
+    - cbn [new_state s_rest]. pose proof (sdepth_le_render_S E Htot (sst E t)). lia.
+  Qed.
+
+  (* the same for the term of a sentence / task / Narsese value *)
+  Corollary C01_value_term_roundtrip : forall (v : narsese F),
+    wf_value is_alnum E v = true ->
+    let t := match v with NTerm t => t | NSentence s => s_term s | NTask k => s_term (fst k) end in
+    unamb (sst E t) [] = true ->
+    parse_term F is_alnum E (new_state F (fmt_term E t)) =
+    POk t (step F (length (fmt_term E t)) (new_state F (fmt_term E t))).
+  Proof. intros v Hw t Hu. apply C01_term_roundtrip; [|assumption]. destruct v; exact Hw. Qed.
+End Roundtrip.
+
+(* ================================================================================== *)
+(* 6. side conditions on the regenerated tables, and non-vacuity                        *)
+Lemma shipped_fmt_side :
+  forallb (fun E => fmt_space_ok E && arms_cover E && total_ok E) shipped_formats = true /\
+  map canon_k shipped_formats = [1; 1; 0]%nat /\
+  probe_ok = true /\ arms_cover probe_fmt = true.
+Proof. vm_compute. repeat split; reflexivity. Qed.
+
+Lemma shipped_fmt_side_each E : In E shipped_formats ->
+  fmt_space_ok E = true /\ arms_cover E = true /\ total_ok E = true.
+Proof.
+  intros HE. destruct shipped_fmt_side as (H & _). rewrite forallb_forall in H. specialize (H E HE).
+  repeat rewrite andb_true_iff in H. tauto.
+Qed.
+
+(* an executable stand-in for char::is_alphanumeric on the characters used below (ASCII letters and
+   digits, CJK unified ideographs); the theorems above hold for every is_alnum *)
+Definition ex_alnum (c : N) : bool :=
+  ((48 <=? c) && (c <=? 57)) || ((65 <=? c) && (c <=? 90)) || ((97 <=? c) && (c <=? 122)) ||
+  ((19968 <=? c) && (c <=? 40959)).
+
+(* a term using EVERY constructor (all enumerations of Gen/TermGen.v), nested three deep *)
+Definition ex_A : term := TName Word [65; 49].              (* A1 *)
+Definition ex_B : term := TName Word [98; 45; 95; 99].      (* b-_c *)
+Definition ex_C : term := TName Word [29483].               (* a CJK name that contains no Han keyword *)
+Definition ex_every : list term :=
+  map (fun c => TName c [120; 49]) all_name_ctor ++ map TUnit all_unit_ctor ++ map (fun c => TNum c 42) all_num_ctor
+  ++ map (fun c => TSet c [ex_A; ex_B; TNum Interval 0]) all_set_ctor ++ map (fun c => TVec c [ex_A; placeholder; ex_A]) all_vec_ctor
+  ++ map (fun c => TImg c 1 [ex_A; ex_C]) all_img_ctor ++ map (fun c => TImg c 0 []) all_img_ctor
+  ++ map (fun c => TBox1 c ex_C) all_box1_ctor ++ map (fun c => TBox2 c ex_A ex_B) all_box2_ctor.
+Definition ex_term : term :=
+  TBox2 Implication (TVec Product ex_every)
+        (TSet SetIntension [TBox1 Negation (TSet Conjunction ex_every); TImg ImageIntension 1 [TVec Product ex_every; ex_B]]).
+
+Definition ex_checks (E : efmt) (t : term) : Prop :=
+  wf_term ex_alnum E t = true /\
+  match sst_of E t with
+  | Some s => fmt_term E t = render E s /\ odesugar s = Some t /\ snonempty E s = true
+  | None => False
+  end.
+
+Example ex_fmt_ascii : ex_checks FORMAT_ASCII ex_term.
+Proof. vm_compute. repeat split; reflexivity. Qed.
+Example ex_fmt_latex : ex_checks FORMAT_LATEX ex_term.
+Proof. vm_compute. repeat split; reflexivity. Qed.
+Example ex_fmt_han : ex_checks FORMAT_HAN ex_term.
+Proof. vm_compute. repeat split; reflexivity. Qed.
+
+(* what the canonical text looks like: an implication whose subject is the product of the set {A1, b-_c} and the image (/, A1, _, $x1) and whose predicate is +42, in the three formats *)
+Definition ex_small : term :=
+  TBox2 Implication (TVec Product [TSet SetExtension [ex_A; ex_B]; TImg ImageExtension 1 [ex_A; TName VariableIndependent [120; 49]]])
+        (TNum Interval 42).
+Example ex_small_ascii :
+  fmt_term FORMAT_ASCII ex_small =
+  [60; 40; 42; 44; 32; 123; 65; 49; 44; 32; 98; 45; 95; 99; 125; 44; 32; 40; 47; 44; 32; 65; 49; 44; 32; 95; 44; 32; 36; 120; 49; 41; 41;
+   32; 61; 61; 62; 32; 43; 52; 50; 62]
+  /\ ex_checks FORMAT_ASCII ex_small /\ ex_checks FORMAT_LATEX ex_small /\ ex_checks FORMAT_HAN ex_small.
+Proof. vm_compute. repeat split; reflexivity. Qed.
+
+(* wf_term one level deep *)
+Lemma wf_term_meaning : forall (is_alnum : N -> bool) (E : efmt) (t : term),
+  wf_term is_alnum E t =
+  match t with
+  | TName _ n =>
+      nonempty n && forallb (name_charb is_alnum E) n
+      && negb (existsb (fun x => nonempty (fst x E) && starts (fst x E) n) parse_atom_arms)
+      && negb (starts [45] n) && negb (ends [45] n)
+      && negb (existsb (fun c => has_infix c n) (gen_copulas E))
+  | TUnit _ => true
+  | TNum _ i => i <=? usize_max
+  | TSet _ l => nonnil l && forallb (wf_term is_alnum E) l && nodup_eqb l
+  | TVec _ l => nonnil l && forallb (wf_term is_alnum E) l
+  | TImg _ i l => (i <=? nlen l) && forallb (wf_term is_alnum E) l && negb (existsb (fun x => term_eqb x placeholder) l)
+  | TBox1 _ a => wf_term is_alnum E a
+  | TBox2 _ a b => wf_term is_alnum E a && wf_term is_alnum E b
+  end.
+Proof. intros is_alnum E t. destruct t; reflexivity. Qed.
